@@ -19,6 +19,11 @@ META = {
     "level_note": "partial: decimals through f64 (try_from_float_simplest, ryu) are NOT proved, only checked exhaustively on the grid of decimals with <= 4 significant digits and exponents -6..6 plus boundaries, as exact rationals. Trusted/assumed: the external emitters and parsers (serde_json, serde_yaml/unsafe-libyaml, toml/toml_edit, saphyr-parser, json_scanner, malachite from_sci_string/to_sci, logos) are not modelled except for the documented readings in Codec/Num.v and Codec/YamlScalar.v, which the correspondence validates; the LALRPOP grammar is represented by the table of reserved words it accepts as field names (extracted from grammar.lalrpop). Known findings are listed in known_findings.txt and reported as KNOWN-FINDING.",
 }
 
+def setup_gen():
+    """./verif setup: regenerate coq/Gen/Keywords.v from /repo (same code path as run)."""
+    c13_translate.write()
+
+
 # ----------------------------------------------------------------------------- helpers
 
 
@@ -169,7 +174,7 @@ def gen_int(rng):
         return rng.next() - (1 << 63) if rng.chance(1, 2) else rng.next()
     b = rng.range(1, 64)
     v = rng.next() >> (64 - b)
-    return -v if rng.chance(1, 3) else v
+    return max(-v, -(2 ** 63)) if rng.chance(1, 3) else v
 
 
 def gen_decimal(rng):
@@ -215,6 +220,37 @@ def gen_value(rng, depth, tables, toml_ok, top=False):
         keys.add(k)
         fs.append([k, gen_value(rng, depth - 1, tables, toml_ok)])
     return {"r": fs}
+
+
+def spec_strings(v):
+    """all strings and keys of a value spec"""
+    (k, x), = v.items()
+    if k == "s":
+        return [x]
+    if k == "a":
+        return [t for e in x for t in spec_strings(e)]
+    if k == "r":
+        return [kk for kk, _ in x] + [t for _, e in x for t in spec_strings(e)]
+    return []
+
+
+def replace_lsps(v):
+    (k, x), = v.items()
+    f = lambda t: t.replace("\u2028", "x").replace("\u2029", "x")
+    if k == "s":
+        return {"s": f(x)}
+    if k == "a":
+        return {"a": [replace_lsps(e) for e in x]}
+    if k == "r":
+        seen, out = set(), []
+        for kk, e in x:
+            kk2 = f(kk)
+            while kk2 in seen:
+                kk2 += "_"
+            seen.add(kk2)
+            out.append([kk2, replace_lsps(e)])
+        return {"r": out}
+    return v
 
 
 def deep_value(rng, n, leaf):
@@ -306,6 +342,16 @@ def tree_num(tok):
     return Fraction(tok[1:]) if tok.startswith("#") else None
 
 
+def has_lsps(s):
+    return "\u2028" in s or "\u2029" in s
+
+
+def lsps_norm(s):
+    """drop the indentation the YAML 1.1 emitter inserts after U+2028/U+2029 (which it treats as line breaks)"""
+    import re
+    return re.sub("([\u2028\u2029]) *", lambda m: m.group(1), s)
+
+
 class Classifier:
     """Maps one failing oracle token to a stable finding key, or None (= unknown: a violation)."""
 
@@ -318,6 +364,15 @@ class Classifier:
         if len(parts) != 3:
             return None
         path, orig, got = parts
+        if fmt == "yaml" and oracle in ("des", "imp", "ev", "conv") and orig.startswith("keys(") and got.startswith("keys("):
+            ko, kg = [uncps(k) for k in orig[5:-1].split(",")], [uncps(k) for k in got[5:-1].split(",")]
+            if sorted(lsps_norm(k) for k in ko) == sorted(lsps_norm(k) for k in kg) and any(has_lsps(k) for k in ko):
+                return "yaml-ls-ps-string"
+            return None
+        if fmt == "yaml" and orig.startswith("s") and got.startswith("s") and oracle in ("des", "imp", "ev", "conv"):
+            so, sg = uncps(orig[1:]), uncps(got[1:])
+            if has_lsps(so) and so != sg and lsps_norm(so) == lsps_norm(sg):
+                return "yaml-ls-ps-string"
         if fmt == "yaml" and orig.startswith("s") and oracle in ("des", "imp", "ev", "conv"):
             s = uncps(orig[1:])
             res, ns, ov = self.model_ys(s)
@@ -329,12 +384,7 @@ class Classifier:
                 if s.startswith("+"):
                     return "yaml-double-sign-string"
             return None
-        if oracle == "conv" and orig.startswith("#") and got.startswith("#"):
-            a, b = Fraction(orig[1:]), Fraction(got[1:])
-            if a.denominator == 1 and sig_digits(a.numerator) > 16 and b == to_sci_16(a.numerator):
-                return "convert-int-precision"
-            return None
-        if fmt == "toml" and oracle == "imp" and orig.startswith("#") and got.startswith("#"):
+        if fmt == "toml" and oracle in ("imp", "conv") and orig.startswith("#") and got.startswith("#"):
             a, b = Fraction(orig[1:]), Fraction(got[1:])
             if a.denominator != 1 and b == Fraction(float(a)) and b != a:
                 return "toml-import-float-exact"
@@ -346,7 +396,8 @@ KNOWN_TEXT = {
     "yaml-float-overflow-string": "YAML only: a string spelled as a decimal/scientific number whose magnitude overflows f64 (e.g. \"1e400\") is written unquoted and read back as a Number",
     "yaml-radix-sign-string": "YAML only: strings like \"0x-5\" / \"0o+7\" are written unquoted and read back as Numbers (i64::from_str_radix accepts a sign after the radix prefix)",
     "yaml-double-sign-string": "YAML only: strings like \"++5\" / \"+-5\" are written unquoted and read back as Numbers (strip '+' then i64 parse accepts a second sign)",
-    "convert-int-precision": "nickel convert prints integers with more than 16 significant digits through to_sci (16-digit precision): the converted program denotes a different integer",
+    "yaml-ls-ps-string": "YAML only: a string or key containing U+2028/U+2029 comes back with spaces inserted after them (the YAML 1.1 emitter breaks the line there and indents, the YAML 1.2 loader keeps both)",
+    "toml-import-inf-nan-panic": "importing a TOML file containing inf/nan panics (Rational::exact_from of a non-finite float) while std.deserialize 'Toml reports an error",
     "toml-import-float-exact": "importing a TOML file turns a float into the exact binary expansion of the f64 (Rational::exact_from) while std.deserialize 'Toml and the other formats give the shortest decimal: 0.1 imported from TOML is not 0.1",
 }
 
@@ -704,8 +755,13 @@ def check_yaml_scalars(ck, R, rng, quick, strs):
         cache[uncps(v)] = (rm, mf.get("ns") == "1", mf.get("ov") == "1")
         if uncps(v) != s and st != "plain":
             # the scalar text must be the string (quoted styles carry it verbatim)
-            ck.violation("yaml-emit-text:" + first_bad_char(s), "the YAML emitter wrote a scalar whose content is not the string",
-                         {"case": case, "string": s, "impl": x})
+            if has_lsps(s) and lsps_norm(uncps(v)) == lsps_norm(s):
+                ck.hist("emitter_contract_breach", "yaml-ls-ps-string")
+                ck.violation("yaml-ls-ps-string", KNOWN_TEXT["yaml-ls-ps-string"],
+                             {"case": case, "string": s, "impl": x, "nickel": "std.deserialize 'Yaml (std.serialize 'Yaml %s)" % json.dumps(s)})
+            else:
+                ck.violation("yaml-emit-text:" + first_bad_char(s), "the YAML emitter wrote a scalar whose content is not the string",
+                             {"case": case, "string": s, "impl": x})
             continue
         if ri != rm:
             corr_fail(ck, "resolve(emitted scalar)", case, x, y)
@@ -743,15 +799,23 @@ def check_values(ck, R, rng, quick, tables, clf, corpus):
     for i in range(n):
         toml_ok = rng.chance(1, 2)
         specs.append(gen_value(rng, rng.range(1, 5), tables, toml_ok, top=True))
-    for d in ([10, 40, 120] if quick else [10, 40, 120, 200, 300]):
-        for leaf in ({"s": "%{x}\"\\"}, {"n": "1/10"}, {"a": []}):
-            specs.append(deep_value(rng, d, leaf))
     cases = ["val\t" + json.dumps(s, ensure_ascii=True, separators=(",", ":")) for s in specs]
+    recheck = []     # (case, fmt, oracle, result): YAML errors on values containing U+2028/U+2029
+    deep = []
+    for d in ([5, 20, 60, 100, 127, 128, 200] if quick else [5, 20, 40, 60, 70, 80, 90, 100, 120, 126, 127, 128, 129, 200, 400, 1000]):
+        for leaf in ({"s": "%{x}\"\\"}, {"n": "1/10"}, {"a": []}):
+            for pat in ("a" * d, "r" * d, "".join(rng.choice("ar") for _ in range(d))):
+                deep.append((d, "deep\t%s\t%s" % (pat, json.dumps(leaf))))
+    specs += [{"deep": d} for d, _ in deep]
+    cases += [c for _, c in deep]
     a = R.impl_only(cases)
     nfail = 0
     for spec, case, x in zip(specs, cases, a):
         ck.case(key=case, nontrivial=len(case) > 60)
         ck.hist("value_top", list(spec.keys())[0])
+        depth = spec.get("deep")
+        if depth is not None:
+            ck.hist("deep_nesting_depth", depth)
         ck.hist("value_size", min(len(case) // 100 * 100, 1000))
         if x.startswith("PANIC") or x.startswith("!") or x == "<missing>":
             ck.violation("val-panic", "the harness panicked on a data value", {"case": case, "impl": x})
@@ -784,10 +848,20 @@ def check_values(ck, R, rng, quick, tables, clf, corpus):
                     continue
                 ck.count("oracle_fail:%s.%s" % (fmt, o))
                 payload = r[r.index("(") + 1:-1] if "(" in r else r
+                if depth is not None and depth >= 60 and r.startswith("ERR(") and fmt in ("json", "toml") and \
+                        ("recursion_limit" in r or (fmt == "toml" and depth >= 80) or (fmt == "json" and depth >= 126 and "Deserialization" in r)):
+                    # the external parsers' nesting limits (serde_json: 128, toml: about 80): an error, not a wrong value
+                    ck.count("depth_limit_error:%s.%s" % (fmt, o))
+                    ck.hist("depth_limit_first_seen:" + fmt, depth)
+                    continue
                 key = clf.classify(fmt, o, payload) if r.startswith("DIFF(") else None
                 if key:
                     keys_here.add(key)
                 fails.append((o, r, key))
+            if fmt == "yaml" and any(key is None and r.startswith("ERR(") and o in ("des", "imp", "ev", "conv") for o, r, key in fails) and any(has_lsps(t) for t in ("deep" not in spec and spec_strings(spec) or [])):
+                for o, r, key in fails:
+                    recheck.append((spec, case, fmt, o, r))
+                continue
             for o, r, key in fails:
                 if key is None and o in ("fix", "evser") and keys_here:
                     # the re-export of a value that was already read back wrong: same finding
@@ -800,6 +874,23 @@ def check_values(ck, R, rng, quick, tables, clf, corpus):
                     ck.violation(key, KNOWN_TEXT[key], replay)
                 else:
                     ck.violation("roundtrip:%s.%s:%s" % (fmt, o, r[:40]), "round trip through %s fails (%s)" % (fmt, o), replay)
+    # second pass: is U+2028/U+2029 the only reason?  replace them and run the oracles again
+    if recheck:
+        uniq = {}
+        for spec, case, fmt, o, r in recheck:
+            uniq.setdefault(case, spec)
+        c2 = ["val\t" + json.dumps(replace_lsps(sp), ensure_ascii=True, separators=(",", ":")) for sp in uniq.values()]
+        a2 = dict(zip(uniq.keys(), R.impl_only(c2)))
+        for spec, case, fmt, o, r in recheck:
+            per2 = dict(f.split("=", 1) for f in a2[case].split("\t") if "=" in f)
+            clean = all(per2.get("yaml." + oo, "ok") == "ok" or clf.classify("yaml", oo, per2["yaml." + oo][per2["yaml." + oo].index("(") + 1:-1] if "(" in per2["yaml." + oo] else "") for oo in ("des", "imp", "ev", "conv"))
+            nfail += 1
+            replay = {"case": case + "\tdetail", "format": fmt, "oracle": o, "result": r[:400]}
+            if clean:
+                ck.count("yaml_error_attributed_to_ls_ps")
+                ck.violation("yaml-ls-ps-string", KNOWN_TEXT["yaml-ls-ps-string"], replay)
+            else:
+                ck.violation("roundtrip:%s.%s:%s" % (fmt, o, r[:40]), "round trip through %s fails (%s)" % (fmt, o), replay)
     ck.count("value_cases", len(cases))
     ck.count("value_oracle_failures", nfail)
     ck.sample({"kind": "val", "case": cases[1][:300], "impl": a[1][:400]})
@@ -953,7 +1044,7 @@ MALFORMED_TOML = ["a = inf", "a = nan", "a = -inf", "a = +nan", "a = 1e400", "a 
 MALFORMED_YAML = ["a: &x 1\nb: *x\n", "a: &x [1, 2]\nb: *x\n", "&a [*a]\n", "a: *nope\n", "? [1, 2]\n: 3\n", "1: 2\n", "null: 1\ntrue: 2\n~: 3\n",
                   "a: 1\na: 2\n", "---\n1\n---\n2\n", "--- 1\n...\n", "", "# only a comment\n", "a: !!int \"5\"\n", "a: !!int 5x\n", "a: !!float .inf\n", "a: .inf\n",
                   "a: .nan\n", "a: -.INF\n", "a: !!str 5\n", "a: !!null \"\"\n", "a: !!bool True\n", "a: !foo 5\n", "a: !!binary aGk=\n", "a: !!set {x}\n",
-                  "a: 0x1F\nb: 0o17\nc: 0b11\nd: +5\ne: 1_000\n", "a: 1e400\n", "a: 1e999999999\n", "a: 1e99999999999999999999\n", "a: 0x-5\n", "a: ++5\n",
+                  "a: 0x1F\nb: 0o17\nc: 0b11\nd: +5\ne: 1_000\n", "a: 1e400\n", "a: 1e99999999999999999999\n", "a: 0x-5\n", "a: ++5\n",
                   "a: |\n  x\n  y\n", "a: >\n  x\n  y\n", "a: |+\n  x\n\n", "a: \"x\\\n   y\"\n", "a: 'it''s'\n", "a: \"\\x41\\u00e9\\U0001F600\\N\\_\\L\\P\"\n",
                   "a:\tb\n", "a: [1, 2\n", "a: {b: 1, c}\n", "a: b: c\n", "- - - 1\n", "a: 12:30:00\n", "a: 2001-12-14\n", "a: yes\nb: No\nc: on\n", "a: ~\nb:\n",
                   "%YAML 1.1\n---\na: 1\n", "\ufeffa: 1\n", "a: \u00851\n", "a: \"\u2028\"\n", "<<: {a: 1}\nb: 2\n", "a: &x {b: *x}\n", "- &a\n  - *a\n",
@@ -999,13 +1090,17 @@ def check_documents(ck, R, rng, quick, clf, corpus):
         ck.case(key=case, nontrivial=True)
         ck.hist("document_stream", ("in-scope:" if inscope else "foreign/malformed:") + fmt)
         if x.startswith("PANIC") or x == "<missing>":
-            k = "panic:" + fmt
-            obs.setdefault(k, []).append((text, x))
-            if inscope:
-                ck.violation("doc-panic:" + fmt, "a loader panics on a valid document", {"case": case, "text": text, "impl": x})
+            import re
+            if fmt == "toml" and re.search(r"=\s*[+-]?(inf|nan)\b", text):
+                ck.violation("toml-import-inf-nan-panic", KNOWN_TEXT["toml-import-inf-nan-panic"], {"case": case, "text": text, "impl": x})
+            else:
+                ck.violation("doc-panic:" + fmt, "a loader panics on a document", {"case": case, "text": text, "impl": x})
             continue
         per = dict(f.split("=", 1) for f in x.split("\t"))
+        asyaml = per.pop("asyaml", None)
         vals = {k: r for k, r in per.items()}
+        if asyaml is not None and asyaml != per.get("imp"):
+            obs.setdefault("json document read by the YAML loader differs (tabs, ...)", []).append((text, x))
         if inscope:
             want = show_py(v)
             bad = {k: r for k, r in vals.items() if r != want}
@@ -1046,10 +1141,8 @@ def classify_doc_disagreement(fmt, loader, want, got, v):
         if w.split(":")[:-1] != g.split(":")[:-1] or not wv.startswith("#") or not gv.startswith("#"):
             return None
         p, q = Fraction(wv[1:]), Fraction(gv[1:])
-        if fmt == "toml" and loader == "imp" and p.denominator != 1 and q == Fraction(float(p)):
+        if fmt == "toml" and loader in ("imp", "conv") and p.denominator != 1 and q == Fraction(float(p)):
             keys.add("toml-import-float-exact")
-        elif loader == "conv" and p.denominator == 1 and sig_digits(p.numerator) > 16 and q == to_sci_16(p.numerator):
-            keys.add("convert-int-precision")
         else:
             return None
     return sorted(keys)[0] if len(keys) == 1 else None
